@@ -142,6 +142,8 @@ def c08(res: CheckResult) -> None:
     ic = C.load_icontract()
     rng = random.Random(res.seed)
     res.assumptions = COMMON_ASSUMPTIONS
+    call_unit(res, "snapshot captures calling the function they belong to (directly / mutually, plain / coroutine): each "
+                   "capture still exactly once per checked call", list(F.fam_reent_cap(res.tier, rng)), ic)
     call_unit(res, "snapshots (kinds x 0..2 snapshots x 0..2 postconditions x pre outcome x capture flavour)",
               list(F.fam_snap(res.tier, rng)), ic, require_outcomes=["ret", "Violation"])
     random_unit(res, "random programs beyond the exhaustive bounds", list(F.fam_random(res.tier, rng, "snap")), ic)
